@@ -540,7 +540,10 @@ class Frame:
         if isinstance(obj, (Inst, SObj)):
             obj.attrs[name] = v
         elif isinstance(obj, HDict):
-            setattr(obj, "attr_" + name, v)
+            if name == "default_factory":
+                obj.factory = v
+            else:
+                setattr(obj, "attr_" + name, v)
         else:
             raise AnalysisError(f"attribute store on {obj!r}")
 
@@ -773,6 +776,17 @@ class Frame:
             if m and not m.startswith("ext:"):
                 return FuncRef(m, self_obj=selfv)
             return FuncRef(None, builtin="extmethod:" + (m[4:] if m else name), self_obj=selfv)
+        if isinstance(obj, HDict):
+            if name == "default_factory":
+                return obj.factory
+            if hasattr(obj, "attr_" + name):
+                return getattr(obj, "attr_" + name)
+            if obj.pytype in DICT_CLASSES:
+                m = I.facts.method(obj.pytype, name)
+                if m and not m.startswith("ext:") and I.stubs.get("dict_methods_from_source"):
+                    return FuncRef(m, self_obj=obj)
+        if isinstance(obj, FuncRef) and obj.builtin == "OrderedDict":
+            return FuncRef(None, builtin="extmethod:OrderedDict." + name, self_obj=None, super_of=("unbound",))
         # methods of values
         return FuncRef(None, builtin="method:" + name, self_obj=obj)
 
@@ -1205,6 +1219,9 @@ class Frame:
             if f.cls:
                 return I.instantiate(f.cls, args, kwargs)
             if f.builtin:
+                if f.super_of == ("unbound",) and f.builtin.startswith("extmethod:") and args:
+                    f = FuncRef(None, builtin=f.builtin, self_obj=args[0])
+                    args = args[1:]
                 return call_builtin(self, f, args, kwargs, node)
         if isinstance(f, TypeRef):
             return call_builtin(self, FuncRef(None, builtin=f.names[0]), args, kwargs, node)
